@@ -10,9 +10,10 @@ use std::panic::{AssertUnwindSafe, catch_unwind};
 use bump_scope::Checkpoint;
 
 use crate::api::*;
-use crate::model::*;
-use crate::runner::{Failure, panic_message};
-use crate::talloc::{self, with_ctx};
+pub use bsv_core::common::{Rec, pick};
+use bsv_core::model::*;
+use bsv_core::runner::{Failure, panic_message};
+use bsv_core::talloc::{self, with_ctx};
 
 pub const MAX_DEPTH: usize = 6;
 pub const LIVE_CAP: usize = 256 << 10;
@@ -163,28 +164,6 @@ fn weights(mix: Mix) -> Vec<(Kind, u32)> {
     base.into_iter().map(|(k, w)| (k, w * boost(k))).collect()
 }
 
-pub struct Rec<'a>(pub &'a [u8]);
-impl Rec<'_> {
-    pub fn b(&self, i: usize) -> u8 {
-        self.0.get(i).copied().unwrap_or(0)
-    }
-    pub fn u16(&self, i: usize) -> usize {
-        self.b(i) as usize | (self.b(i + 1) as usize) << 8
-    }
-    pub fn u32(&self, i: usize) -> usize {
-        self.u16(i) | self.u16(i + 2) << 16
-    }
-    pub fn u64(&self, i: usize) -> u64 {
-        self.u32(i) as u64 | (self.u32(i + 4) as u64) << 32
-    }
-}
-
-/// monotone index mapping (shrinks towards 0)
-pub fn pick(raw: usize, len: usize) -> usize {
-    debug_assert!(len > 0);
-    ((raw & 0xFFFF) * len) >> 16
-}
-
 #[derive(Clone, Debug)]
 pub struct CpRec {
     pub cp: Checkpoint,
@@ -295,7 +274,7 @@ pub(crate) struct OpPre {
 }
 
 /// marker payload for deliberate unwinding out of a scope closure
-pub type ScopeUnwind = crate::runner::Marker;
+pub type ScopeUnwind = bsv_core::runner::Marker;
 
 impl<'c> Interp<'c> {
     pub fn new(recs: Vec<&'c [u8]>, mix: Mix, want_desc: bool) -> Self {
